@@ -474,6 +474,10 @@ class Machine:
             self.panics.append((simplify(And(pc, b == 0)), "attempt to divide by zero (div_ceil)"))
             q = UDiv(a, b)
             return If(URem(a, b) != 0, q + 1, q)
+        if re.search(r"<impl f64>::clamp$", callee):
+            x, lo, hi = argv
+            self.panics.append((simplify(And(pc, Not(fpLEQ(lo, hi)))), "f64::clamp: min > max or a NaN bound"))
+            return If(fpLT(x, lo), lo, If(fpGT(x, hi), hi, x))
         if re.search(r"<impl f64>::abs$", callee):
             return fpAbs(argv[0])
         if re.search(r"<impl f64>::exp$", callee):
